@@ -17,6 +17,8 @@ from symx.runner import Config  # noqa: F401
 # model -> concrete python values
 
 def mval(m, x):
+    if m is None and isinstance(x, np.ndarray):
+        return np.array(symnp._obj(x).tolist(), dtype=float).tolist()
     if isinstance(x, np.ndarray):
         if x.dtype == object:
             out = np.empty(x.shape, dtype=float)
